@@ -137,8 +137,10 @@ def run_seeded(sid):
     d = f"/verif/seeded/{sid}"
     meta = json.load(open(f"{d}/meta.json"))
     props = meta.get("checks", [meta["property"]])
+    if os.environ.get("SELFTEST_CHECKS"):
+        props = os.environ["SELFTEST_CHECKS"].split(",")
     revert()
-    rec = {"id": sid, "kind": "seeded", "desc": meta.get("what", ""), "expected": props}
+    rec = {"id": sid, "kind": "seeded" if not os.environ.get("SELFTEST_CHECKS") else "seeded-cross", "desc": meta.get("what", ""), "expected": props}
     try:
         r = sh(f"git -C {REPO} apply {d}/patch.diff")
         if r.returncode != 0:
